@@ -4,7 +4,7 @@ import FiberModel.C19.Spec
 Driver for C19. Case fields (after the id):
   allowOrigins(hexlist) funcSet(0/1) funcAllows(hexlist) allowMethods allowHeaders expose(hexlists)
   maxAge(int) credentials(0/1) privateNetwork(0/1)
-  method origin acrMethod acrHeaders acrPrivate (hex)   implObs
+  method origin acrMethod acrHeaders acrPrivate (hex) skip(0/1)   implObs
 -/
 open B DriverUtil C19
 
@@ -35,7 +35,7 @@ def defaultMethods : List Bytes := [b "GET", b "POST", b "HEAD", b "PUT", b "DEL
 
 def handleCase (f : List String) : Except String Verdict := do
   match f with
-  | [id, ao, fs, fa, am, ah, ex, ma, cr, pn, me, og, acrm, acrh, acrpn, impl] =>
+  | [id, ao, fs, fa, am, ah, ex, ma, cr, pn, me, og, acrm, acrh, acrpn, sk, impl] =>
     let some ao := hexList ao | throw "allowOrigins"
     let some fa := hexList fa | throw "funcAllows"
     let some am := hexList am | throw "allowMethods"
@@ -50,11 +50,18 @@ def handleCase (f : List String) : Except String Verdict := do
     let cfg : Config := { allowOrigins := ao, allowFunc := if fs == "1" then some (fun o => fa.contains o) else none,
                           allowMethods := am, allowHeaders := ah, exposeHeaders := ex, maxAge := ma,
                           credentials := cr == "1", privateNetwork := pn == "1" }
-    let q : Request := { method := me, origin := og, acrMethod := acrm, acrHeaders := acrh, acrPrivate := acrpn }
+    let q : Request := { method := me, origin := og, acrMethod := acrm, acrHeaders := acrh, acrPrivate := acrpn, skip := sk == "1" }
     match build cfg defaultMethods with
     | none =>
-      -- constructor refuses the configuration; nothing is served, the property is silent
-      pure { id := id, modelObs := "panic", implObs := impl, spec := none, tags := ["panic"] }
+      -- the constructor refuses the configuration; nothing is served, the property is silent.
+      -- If the implementation served anyway, still judge what it served.
+      let cfgd := if cfg.allowMethods.isEmpty then { cfg with allowMethods := defaultMethods } else cfg
+      let spec : Option String :=
+        if impl == "panic" then none
+        else match buildLax cfgd, parseResp impl with
+          | some bt, some ri => specViolation bt q ri
+          | _, _ => none
+      pure { id := id, modelObs := "panic", implObs := impl, spec := spec, tags := ["panic"] }
     | some bt =>
       let r := handle bt q
       let spec : Option String :=
@@ -63,11 +70,11 @@ def handleCase (f : List String) : Except String Verdict := do
           | none => some "unparsable-observation"
           | some ri => specViolation bt q ri
       let o := toLower og
-      let branch := if o = [] then "noorigin" else if me = OPTIONS ∧ acrm = [] then "options-nonpreflight"
+      let branch := if q.skip then "skipped" else if o = [] then "noorigin" else if me = OPTIONS ∧ acrm = [] then "options-nonpreflight"
                     else if me ≠ OPTIONS then "simple" else "preflight"
       let dec := if o = [] then "na" else if bt.allowAll then "all" else if permitted bt o then "allowed" else "denied"
-      let nt := if o ≠ [] && !bt.allowAll then ["nt"] else []
+      let nt := if o ≠ [] && !bt.allowAll && !q.skip then ["nt"] else []
       pure { id := id, modelObs := renderResp r, implObs := impl, spec := spec, tags := [branch, dec] ++ nt }
-  | _ => throw s!"expected 16 fields, got {f.length}"
+  | _ => throw s!"expected 17 fields, got {f.length}"
 
 def main : IO Unit := run handleCase
